@@ -38,6 +38,27 @@ class notrace:
         return False
 
 
+class reclimit:
+    """Bound Python recursion while real code runs on concrete inputs (a runaway recursion must surface as
+    RecursionError quickly; CrossHair raises the interpreter limit for its own needs)."""
+
+    def __init__(self, extra=600):
+        self.extra = extra
+
+    def __enter__(self):
+        import sys
+        import inspect
+        self.old = sys.getrecursionlimit()
+        depth = len(inspect.stack(0))
+        sys.setrecursionlimit(min(self.old, depth + self.extra))
+        return self
+
+    def __exit__(self, *a):
+        import sys
+        sys.setrecursionlimit(self.old)
+        return False
+
+
 def realize(v):
     if _realize is None:
         return v
@@ -63,7 +84,11 @@ def pick(i, xs):
 def run_body(body, cube, args):
     sym_args = args
     if '_fixed' in cube:
-        args = dict(cube['_fixed'], **args)
+        with notrace():  # plain dict merge; no operation on the (possibly symbolic) values
+            merged = {}
+            merged.update(cube['_fixed'])
+            merged.update(args)
+        args = merged
     try:
         r = body(cube, **args)
     except Exception as e:  # CrossHair's control-flow exceptions are BaseException
